@@ -45,6 +45,8 @@ type ReqPlan struct {
 	Ctl     CtlScript               `json:"ctl"`
 	Params  []ParamPlan             `json:"params,omitempty"`
 	Expect  Expect                  `json:"expect"`
+	// BaseRoute is the annotated route the request was derived from (equals Expect.Route except for strays)
+	BaseRoute int `json:"base_route"`
 }
 
 type planner struct {
@@ -78,6 +80,12 @@ func routeTags(rt projgen.Route) []string {
 	for _, s := range rt.Segs {
 		if projgen.IsParamSeg(s) {
 			tags = append(tags, "param")
+			break
+		}
+	}
+	for _, s := range rt.Segs {
+		if projgen.IsParamSeg(s) && strings.ContainsAny(s, "-.") {
+			tags = append(tags, "hyphen-param")
 			break
 		}
 	}
@@ -218,7 +226,7 @@ func (pl *planner) build(ri int, class string, modes map[string]string, adventur
 func (pl *planner) buildForced(ri int, class string, modes map[string]string, adventurous bool, forced map[string][]WireVal) *ReqPlan {
 	rt := pl.routes[ri]
 	m := rt.M
-	plan := &ReqPlan{ID: pl.nextID(), Class: class, Tags: routeTags(rt), Verb: m.Verb, AuthDefault: AuthDecision{Kind: "approve"}}
+	plan := &ReqPlan{ID: pl.nextID(), Class: class, Tags: routeTags(rt), Verb: m.Verb, AuthDefault: AuthDecision{Kind: "approve"}, BaseRoute: ri}
 	plan.Expect = Expect{Route: ri, OpID: pl.p.OpPrefix + rt.OpID, Outcome: "invoked"}
 	pathVals := map[string]string{}
 	q := url.Values{}
@@ -614,13 +622,14 @@ func (pl *planner) stray(ri int, kind string) *ReqPlan {
 	if kind == "trailing-slash" || kind == "case-variant" {
 		base.Expect.Policy = "framework policy: " + kind
 	}
-	// equal to an annotated template up to a trailing slash: framework policy, not judged
-	if hit < 0 {
+	// equal to an annotated template up to a trailing slash (and not the route the reference router
+	// picked): whether /x and /x/ are one path is framework policy, not judged
+	{
 		alt := append(append([]string{}, plain...), "")
 		if n := len(plain); n > 0 && plain[n-1] == "" {
 			alt = plain[:n-1]
 		}
-		if matchRoute(pl.routes, verb, alt) >= 0 {
+		if ah := matchRoute(pl.routes, verb, alt); ah >= 0 && ah != hit {
 			base.Expect.Policy = "framework policy: differs from an annotated path by a trailing slash"
 		}
 	}
